@@ -32,6 +32,8 @@ pub enum Op {
     Delete(usize),
     /// textDocument/codeAction at the start of the document (no client-side effect)
     CodeAction(usize),
+    /// HarperIgnoreLint for the first lint currently reported in the document
+    Ignore(usize),
     /// shutdown request: the server clears diagnostics of every open buffer and saves statistics
     Shutdown,
 }
@@ -54,6 +56,8 @@ pub struct Client {
     pub user_words: BTreeSet<String>,
     pub file_words: Vec<BTreeSet<String>>,
     pub config: usize,
+    /// lints the user ignored, per document: (text at that time, lint); dropped when the document is closed
+    pub ignored: Vec<Vec<(String, Lint)>>,
     /// a shutdown request was sent: nothing may follow, and the per-document oracle no longer applies
     pub shut_down: bool,
 }
@@ -68,6 +72,7 @@ impl Client {
             user_words: BTreeSet::new(),
             file_words: vec![BTreeSet::new(), BTreeSet::new()],
             config: 0,
+            ignored: vec![vec![], vec![]],
             shut_down: false,
         }
     }
@@ -133,7 +138,11 @@ pub fn ref_lints(text: &str, lang: &str, words: &BTreeSet<String>, cfg: usize, i
 
 /// Reference diagnostics as sorted JSON (range + message).
 pub fn ref_diag(text: &str, lang: &str, words: &BTreeSet<String>, cfg: usize) -> Vec<Value> {
-    let lints = ref_lints(text, lang, words, cfg, &[]);
+    ref_diag_ignoring(text, lang, words, cfg, &[])
+}
+
+pub fn ref_diag_ignoring(text: &str, lang: &str, words: &BTreeSet<String>, cfg: usize, ignored: &[(String, Lint)]) -> Vec<Value> {
+    let lints = ref_lints(text, lang, words, cfg, ignored);
     let chars = s2c(text);
     let mut v: Vec<Value> = lints
         .iter()
@@ -182,6 +191,9 @@ impl Session {
         let settings = self.world.settings(serde_json::from_str(CONFIGS[self.client.config]).unwrap(), "American");
         self.server = Server::new(self.world.config(), settings);
         self.server.boot()?;
+        for i in self.client.ignored.iter_mut() {
+            i.clear(); // the ignore list lives in the server's memory
+        }
         for d in 0..self.client.docs.len() {
             if self.client.docs[d].open {
                 let uri = self.uri(d);
@@ -226,6 +238,10 @@ impl Session {
             Op::Config(c) => self.client.config != *c,
             Op::Delete(d) => self.client.docs[*d].has_file && self.client.docs[*d].ever_opened,
             Op::CodeAction(d) => self.client.docs[*d].open,
+            Op::Ignore(d) => {
+                let doc = &self.client.docs[*d];
+                doc.open && !ref_lints(&doc.text, doc.lang, &self.words_for(*d), self.client.config, &self.client.ignored[*d]).is_empty()
+            }
             Op::Shutdown => self.client.docs.iter().any(|d| d.open),
         }
     }
@@ -261,6 +277,7 @@ impl Session {
             Op::Close(d) => {
                 let uri = self.uri(*d);
                 self.client.docs[*d].open = false;
+                self.client.ignored[*d].clear();
                 let req = Server::notification("textDocument/didClose", json!({"textDocument": {"uri": uri}}));
                 self.server.enqueue(&label, req);
             }
@@ -288,6 +305,16 @@ impl Session {
                 let req = self.server.request("textDocument/codeAction", json!({"textDocument": {"uri": uri}, "range": {"start": {"line": 0, "character": 11}, "end": {"line": 0, "character": 12}}, "context": {"diagnostics": []}}));
                 self.server.enqueue(&label, req);
             }
+            Op::Ignore(d) => {
+                let uri = self.uri(*d);
+                let doc = self.client.docs[*d].clone();
+                let lints = ref_lints(&doc.text, doc.lang, &self.words_for(*d), self.client.config, &self.client.ignored[*d]);
+                let lint = lints[0].clone();
+                // the editor copies the lint from the quick-fix command it was offered
+                let req = self.server.request("workspace/executeCommand", json!({"command": "HarperIgnoreLint", "arguments": [uri, serde_json::to_value(&lint).unwrap()]}));
+                self.client.ignored[*d].push((doc.text.clone(), lint));
+                self.server.enqueue(&label, req);
+            }
             Op::Shutdown => {
                 self.client.shut_down = true;
                 let req = self.server.request("shutdown", Value::Null);
@@ -299,6 +326,7 @@ impl Session {
                 let _ = std::fs::remove_file(self.world.doc_path(doc.name));
                 doc.has_file = false;
                 doc.open = false; // the editor drops buffers of deleted files
+                self.client.ignored[*d].clear();
                 let req = Server::notification("workspace/didChangeWatchedFiles", json!({"changes": [{"uri": uri, "type": 3}]}));
                 self.server.enqueue(&label, req);
             }
@@ -321,7 +349,7 @@ impl Session {
             let doc = &self.client.docs[d];
             let got = self.server.last_diagnostics(&self.uri(d)).map(|v| norm_diag(&v));
             if doc.open {
-                let want = ref_diag(&doc.text, doc.lang, &self.words_for(d), self.client.config);
+                let want = ref_diag_ignoring(&doc.text, doc.lang, &self.words_for(d), self.client.config, &self.client.ignored[d]);
                 if got.as_ref() != Some(&want) {
                     out.push((d, json!({"document": doc.name, "client_text": doc.text, "published": got, "expected": want})));
                 }
@@ -360,6 +388,8 @@ pub fn ops() -> Vec<Op> {
         Op::Delete(0),
         Op::CodeAction(0),
         Op::Shutdown,
+        Op::Ignore(0),
+        Op::Ignore(1),
     ]
 }
 
@@ -712,7 +742,10 @@ pub fn model_only(c: &mut Client, op: &Op) {
         }
         Op::Change(d, t) => c.docs[*d].text = TEXTS[*t].to_string(),
         Op::Save(_) => {}
-        Op::Close(d) => c.docs[*d].open = false,
+        Op::Close(d) => {
+            c.docs[*d].open = false;
+            c.ignored[*d].clear();
+        }
         Op::AddUser(_, w) => {
             c.user_words.insert(w.to_string());
         }
@@ -723,8 +756,17 @@ pub fn model_only(c: &mut Client, op: &Op) {
         Op::Delete(d) => {
             c.docs[*d].has_file = false;
             c.docs[*d].open = false;
+            c.ignored[*d].clear();
         }
         Op::CodeAction(_) => {}
+        Op::Ignore(d) => {
+            let doc = c.docs[*d].clone();
+            let mut w = c.user_words.clone();
+            w.extend(c.file_words[*d].iter().cloned());
+            if let Some(l) = ref_lints(&doc.text, doc.lang, &w, c.config, &c.ignored[*d]).first() {
+                c.ignored[*d].push((doc.text.clone(), l.clone()));
+            }
+        }
         Op::Shutdown => c.shut_down = true,
     }
 }
